@@ -410,6 +410,23 @@ example : framesObs (fun p => some p) 4 [[0,0,0,0,0,0,0,5, 1,2,3,4,5]] = ([.err 
 
 example : metaOk ⟨1700000000000000000, some 1500, [1, 2]⟩ = true := by decide
 
+/-- (an undecodable message harms nobody) Whatever `from_boxed` does with a serialized message that
+is not a message of the actor — return `Err` or panic —, `handle` is not called, the actor keeps
+running with its state untouched, and if the message was a `Call` its reply port is dropped: the
+caller observes an absence, never a value. For the generated decoders (`decodedOf`) this is the
+case exactly when the model's `deserialize` rejects the message. -/
+theorem undecodable_message_harms_nobody (vs : List Variant) (st : ActorSt) (m : SMsg) :
+    (handleMessage st m .err).handled = st.handled ∧ (handleMessage st m .panic).handled = st.handled ∧
+    (handleMessage st m .err).running = st.running ∧ (handleMessage st m .panic).running = st.running ∧
+    (handleMessage st m .err).droppedPorts = st.droppedPorts + (if m.isCall then 1 else 0) ∧
+    (handleMessage st m .panic).droppedPorts = st.droppedPorts + (if m.isCall then 1 else 0) ∧
+    (deserialize vs m = none → (handleMessage st m (decodedOf vs m)).handled = st.handled ∧
+      (handleMessage st m (decodedOf vs m)).running = st.running) ∧
+    (∀ d, deserialize vs m = some d → (handleMessage st m (decodedOf vs m)).handled = st.handled ++ [d]) := by
+  refine ⟨rfl, rfl, rfl, rfl, rfl, rfl, ?_, ?_⟩
+  · intro h; simp [decodedOf, h, handleMessage]
+  · intro d h; simp [decodedOf, h, handleMessage]
+
 /-! ## `Job` messages, reply-port position, reply bridge -/
 
 /-- (`Job::deserialize` rejects) A job message is decoded iff its metadata is present with at
@@ -495,6 +512,7 @@ example : (orderedBindings "port" ["a", "b"] 1, dataFieldsOf ["a", "port", "b"] 
   decide
 
 #print axioms C19.io_error_stops_reader
+#print axioms C19.undecodable_message_harms_nobody
 #print axioms C19.job_decodes_iff
 #print axioms C19.job_roundtrip
 #print axioms C19.reply_port_position
